@@ -398,9 +398,16 @@ fn other_cases(tier: &str) -> Vec<(&'static str, Vec<ModuleS>, Vec<Vec<ModuleS>>
         let maxv = if tier == "thorough" { 6 } else { 5 };
         for nv in 1..=maxv {
             for explicit in 0..(1u32 << nv) {
+              // explicit values ascending, and descending (an implicit value follows the previous variant,
+              // not the largest value seen so far)
+              for descending in [false, true] {
+                if descending && explicit.count_ones() < 2 {
+                    continue;
+                }
                 let mut e = EnumS::new("E", base_ty);
                 for i in 0..nv {
-                    e.variants.push(VariantS { name: format!("V{i}"), value: if explicit >> i & 1 == 1 { Some(10 * i as i128 + 3) } else { None }, default: false, doc: vec![] });
+                    let val = if descending { 10 * (nv - i) as i128 + 3 } else { 10 * i as i128 + 3 };
+                    e.variants.push(VariantS { name: format!("V{i}"), value: if explicit >> i & 1 == 1 { Some(val) } else { None }, default: false, doc: vec![] });
                 }
                 let vals = enum_values(&e);
                 let implicit: Vec<usize> = (0..nv).filter(|i| explicit >> i & 1 == 0).collect();
@@ -415,6 +422,7 @@ fn other_cases(tier: &str) -> Vec<(&'static str, Vec<ModuleS>, Vec<Vec<ModuleS>>
                     variants.push(vec![ModuleS::new("m").with(vec![Item::Enum(e2)])]);
                 }
                 out.push(("enum", vec![ModuleS::new("m").with(vec![Item::Enum(e)])], variants));
+              }
             }
         }
     }
